@@ -1,4 +1,5 @@
 import Pmn.Model.Grid
+import Pmn.Model.Fmt
 import Driver.Proto
 open Driver
 
@@ -17,9 +18,25 @@ def opGrid (args : List String) : String :=
       " ".intercalate (t.map fun (z, a) => s!"{z},{a}")
   | _ => "bad-op"
 
+def opFmt (args : List String) : String :=
+  match args with
+  | ["ff", b, ue] =>
+    match Pmn.Fmt.ofBits (parseN b).toUInt64 with
+    | none => "nonfinite"
+    | some x =>
+      let useE := ue == "1"
+      let s := Pmn.Fmt.formatFloat x useE
+      let v := Pmn.Fmt.fmtVal x useE
+      let ok := match Pmn.Fmt.readField s with
+        | some r => r.same v
+        | none => false
+      s!"{hex s} {if ok then 1 else 0} {if v.neg then 1 else 0} {v.n} {v.scale} {v.exp10}"
+  | _ => "bad-op"
+
 def dispatch (line : String) : String :=
   match (line.trimAscii.toString.splitOn " ").filter (· ≠ "") with
   | "grid" :: r => opGrid r
+  | "fmt" :: r => opFmt r
   | _ => "bad-op"
 
 partial def loop (h : IO.FS.Stream) (out : IO.FS.Stream) : IO Unit := do
